@@ -33,7 +33,7 @@ class C03(Prop):
                   'c03_fits_single and c03_reassemble_exact are kernel-checked for all metadata/data, all F >= the regenerated minimum, both framings and the '
                   'five types of the regenerated table; the size clause is proved as c03_size_partial (<= F+3; <= F without metadata) and its full-strength '
                   'form is refuted by c03_size_counterexample, replayed on the implementation as a recorded finding. The model is a transcription of '
-                  'FrameFragmenter.__iter__, new_frame_fragment and FrameFragmentCache and is run against them through serialize/parse.')
+                  'FrameFragmenter.__iter__, new_frame_fragment and FrameFragmentCache and is run against them through serialize/parse. c03_engine_reassembles: on the engine model (tied to the code by the C07/C09-C12 correspondence runs, which feed fragmented frames), a frame arriving as first / continuation / last fragments has exactly the effect of the whole frame, for every state, frame type, split and handler behaviour.')
     level_note = ('Trusted: Lean kernel + standard axioms; regenerated header table and minimum size (side conditions c03_header_table, c03_min_fragment_room '
                   'are decided on every build); model fidelity as far as the correspondence reaches; BytesIO.read = List.take/drop.')
     design_ref = '§5 C03'
